@@ -123,4 +123,67 @@ example : update ⟨5, 100, p1⟩ ⟨4, 101, ⟨101, 50, 49, 51⟩, 0, true⟩ =
 example : update ⟨5, 100, p1⟩ ⟨6, 101, ⟨103, 50, 49, 51⟩, 1, true⟩ = .error .InvalidArgument := by decide
 example : update ⟨5, 100, p1⟩ ⟨6, 101, ⟨101, 52, 49, 51⟩, 0, true⟩ = .error .InvalidArgument := by decide
 
+/-! ### audit: further non-vacuity instances (theorems instantiated, a mixed history) -/
+
+/-- `Valid` on the initial and on a non-initial reachable state; `stored_price_ordered` instantiated on the latter
+with an ACCEPTED update -/
+example : Valid St.zero ∧ Valid ⟨5, 100, p1⟩ := by unfold Valid; decide
+example : Valid (apply ⟨5, 100, p1⟩ ⟨6, 101, ⟨101, 60, 58, 61⟩, 0, false⟩) ∧
+    apply ⟨5, 100, p1⟩ ⟨6, 101, ⟨101, 60, 58, 61⟩, 0, false⟩ = ⟨6, 101, ⟨101, 60, 58, 61⟩⟩ :=
+  ⟨stored_price_ordered _ _ (by unfold Valid; decide), by decide⟩
+
+/-- `rejected_unchanged`, `skipped_unchanged`, `idempotent_older_skipped`, `strict_older_rejected`, `accepted_spec`
+instantiated (hypotheses discharged on concrete calls) -/
+example : apply ⟨5, 100, p1⟩ ⟨6, 101, ⟨101, 52, 49, 51⟩, 0, true⟩ = ⟨5, 100, p1⟩ :=
+  rejected_unchanged _ _ .InvalidArgument (by decide)
+example : (⟨5, 100, p1⟩ : St) = ⟨5, 100, p1⟩ ∧ true = true ∧ (99 : Int) < 100 :=
+  skipped_unchanged ⟨5, 100, p1⟩ ⟨5, 100, p1⟩ ⟨6, 101, ⟨99, 50, 49, 51⟩, 0, true⟩ (by decide)
+example : update ⟨5, 100, p1⟩ ⟨6, 101, ⟨99, 50, 49, 51⟩, 0, true⟩ = .ok (⟨5, 100, p1⟩, false) :=
+  idempotent_older_skipped _ _ rfl (by decide) (by decide) (by decide)
+example : ∃ e, update ⟨5, 100, p1⟩ ⟨6, 101, ⟨99, 50, 49, 51⟩, 0, false⟩ = .error e :=
+  strict_older_rejected _ _ rfl (by decide)
+example : (⟨7, 105, ⟨107, 60, 58, 61⟩⟩ : St) = ⟨7, 105, ⟨107, 60, 58, 61⟩⟩ ∧
+    (107 : Int) ≤ satAddUnsigned 105 2 ∧ (100 : Int) ≤ 107 ∧ 58 ≤ 60 ∧ 60 ≤ 61 :=
+  accepted_spec ⟨5, 100, p1⟩ _ ⟨7, 105, ⟨107, 60, 58, 61⟩, 2, false⟩ (by decide)
+
+/-- `history` / `history_from_zero` on a mixed non-empty history: accepted, skipped (idempotent, older), rejected
+(strict, older), rejected (slot behind), rejected (inverted bounds), accepted (from the allowed future) -/
+example : run St.zero [⟨5, 100, p1, 0, false⟩, ⟨6, 101, ⟨99, 50, 49, 51⟩, 0, true⟩, ⟨6, 101, ⟨99, 50, 49, 51⟩, 0, false⟩,
+      ⟨4, 102, ⟨102, 50, 49, 51⟩, 0, true⟩, ⟨6, 102, ⟨102, 50, 52, 51⟩, 0, true⟩, ⟨7, 105, ⟨107, 60, 58, 61⟩, 2, false⟩] =
+    ⟨7, 105, ⟨107, 60, 58, 61⟩⟩ := by decide
+example : (100 : Int) ≤ (run ⟨5, 100, p1⟩ [⟨6, 101, ⟨99, 50, 49, 51⟩, 0, true⟩, ⟨7, 105, ⟨107, 60, 58, 61⟩, 2, false⟩]).price.ts :=
+  (history [⟨6, 101, ⟨99, 50, 49, 51⟩, 0, true⟩, ⟨7, 105, ⟨107, 60, 58, 61⟩, 2, false⟩] ⟨5, 100, p1⟩ (by unfold Valid; decide)).1
+
+/-- AUDIT (strength): `strict_older_rejected` only says "some error"; when clock and slot are not behind the error
+is exactly `InvalidArgument` (and with either behind it is `Preconditions`, by `update_outcomes`) -/
+theorem strict_older_rejected_kind (s : St) (u : Upd) (hi : u.idempotent = false) (hold : u.p.ts < s.price.ts)
+    (hslot : s.lastSlot ≤ u.slot) (hnow : s.lastTs ≤ u.now) :
+    update s u = .error .InvalidArgument := by
+  rcases update_cases s u with ⟨_, h⟩ | ⟨_, _, _, h, _⟩ | ⟨h, _⟩ | ⟨_, _, _, h, _⟩
+  · omega
+  · rw [hi] at h; cases h
+  · exact h
+  · omega
+
+example : update ⟨5, 100, p1⟩ ⟨6, 101, ⟨99, 50, 49, 51⟩, 0, false⟩ = .error .InvalidArgument :=
+  strict_older_rejected_kind _ _ rfl (by decide) (by decide) (by decide)
+
+/-- AUDIT (strength): `history` bounds the stored state from BELOW only; the property's "not from the future" half
+as a state invariant over histories: whenever the account holds an accepted price, it was at most the call's
+`max_future_excess` ahead of the published clock — stated for one step (the excess is per call): after ANY call,
+either nothing changed or the stored timestamp is within the allowed excess of the now-published clock -/
+theorem stored_not_from_future (s : St) (u : Upd) :
+    apply s u = s ∨ ((apply s u).price.ts ≤ satAddUnsigned (apply s u).lastTs u.maxFutureExcess ∧
+      (apply s u).lastTs = u.now ∧ (apply s u).lastSlot = u.slot ∧ (apply s u).price = u.p) := by
+  unfold apply
+  rcases update_cases s u with ⟨h, _⟩ | ⟨h, _⟩ | ⟨h, _⟩ | ⟨h, _, _, _, h4, _⟩ <;> rw [h]
+  · exact .inl rfl
+  · exact .inl rfl
+  · exact .inl rfl
+  · exact .inr ⟨h4, rfl, rfl, rfl⟩
+
+example : update ⟨5, 100, p1⟩ ⟨6, 101, ⟨104, 50, 49, 51⟩, 2, true⟩ = .error .InvalidArgument ∧
+    update ⟨5, 100, p1⟩ ⟨6, 101, ⟨103, 50, 49, 51⟩, 2, true⟩ = .ok (⟨6, 101, ⟨103, 50, 49, 51⟩⟩, true) := by decide
+
+
 end Gmx.C25
